@@ -52,13 +52,14 @@ def sources(ctx, tj, quick):
     out = []
     files = sorted(glob.glob(os.path.join(common.REPO, "test", "tools", "**", "*.xml"), recursive=True))
     if quick:
-        files = files[ctx.seed % 3::3]
+        # a third of the corpus per run, plus every document with an embedded sub-document (anonymous must not reach them)
+        files = [f for i, f in enumerate(files) if i % 3 == ctx.seed % 3 or "/ddf/" in f or b"<DevInf" in open(f, "rb").read()]
     for f in files:
         out.append(("corpus:" + os.path.relpath(f, os.path.join(common.REPO, "test", "tools")), 0, open(f, "rb").read()))
     docs = c06_gen.documents(tj, common.Rng(ctx.seed, 7), quick)
     if quick:
         # every text / attribute document, every third tag document
-        docs = [d for i, d in enumerate(docs) if (d[1] != "tags" and i % 2 == ctx.seed % 2) or i % 5 == ctx.seed % 5]
+        docs = [d for i, d in enumerate(docs) if (d[1] != "tags" and i % 2 == ctx.seed % 2) or i % 5 == ctx.seed % 5 or d[1] == "embedded"]
     for lid, kind, x, _ in docs:
         out.append((kind, lid, x))
     return out
